@@ -416,6 +416,10 @@ impl CaaTag<[u8]> {
     }
 
     fn check_slice(octets: &[u8]) -> Result<(), ParseError> {
+        // The tag is a character string and thus at most 255 octets long.
+        if octets.len() > 255 {
+            return Err(ParseError::form_error("long CAA tag"));
+        }
         if octets.iter().any(|e| !e.is_ascii_alphanumeric()) {
             return Err(ParseError::form_error(
                 "CAA tag contains invalid character",
